@@ -48,6 +48,16 @@ class Scte35Events(RepeatingEventBase):
         if self.inband:
             self.version = 1
 
+    def check_parameters(self) -> None:
+        super().check_parameters()
+        # the fields of a splice_insert have a fixed width
+        if 1 + (self.count // 2) > 0xFF:
+            raise ValueError('scte35 count must be less than 510')
+        if (self.duration * MPEG_TIMEBASE // self.timescale) > 0x1FFFFFFFF:
+            raise ValueError('scte35 duration does not fit a 33 bit break_duration')
+        if self.program_id < 0 or self.program_id > 0xFFFF:
+            raise ValueError('scte35 program_id must be a 16 bit value')
+
     def get_manifest_event_payload(self, event_id: int, presentation_time: int) -> str:
         splice = self.create_binary_signal(event_id, presentation_time)
         data = splice.encode()
